@@ -74,7 +74,7 @@ def _liveness(ctx):
     cfg = tlc.subst_cfg("C13_MC.cfg", consts, replace=[
         ("INIT Init\nNEXT Next\nVIEW View", "SPECIFICATION FairSpec"), (INV, "INVARIANTS TypeOK"),
         (PROPS, "PROPERTIES WaitReleased")])
-    r = tlc.run(ctx, "C13_MC", "gen_live.cfg", cfg_text=cfg, workers=2, timeout=900, name="live")
+    r = tlc.run(ctx, "C13_MC", "gen_live.cfg", cfg_text=cfg, workers=1, timeout=900, name="live")
     if not r.ok:
         raise MachineryError("design-level failure in C13 liveness: %s violated\n%s" % (r.violated, r.out[-2500:]))
     # not vacuous: an identify in flight is reachable in this instance (probe expected to be violated)
@@ -236,6 +236,62 @@ def _hosts(ctx):
     return goenv.run_harness(ctx, "./p2p/protocol/identify", "^TestVerifC13Hosts$", timeout=1500)
 
 
+CROSS_INV = "INVARIANTS TypeOK RecordOnlyOwn KeyMatches"
+CROSS_PROPS = "PROPERTIES OnlyRemote HistoryFree"
+
+
+def _cross_graph(args):
+    """Cross-peer, history-aware part (spec/C13_Cross.tla): print the graph whose states carry which peer's
+    record/key has been accepted from its owner (warm) or presented by somebody else (tried), covering walks."""
+    ctx, name, peers, menu, beh_dir = args
+    cfg = tlc.subst_cfg("C13_CrossMC.cfg", {"Peers": S(*peers), "Menu": '"%s"' % menu}, replace=[
+        ("INIT Init", "INIT MCInit"), ("VIEW View", "VIEW View\nACTION_CONSTRAINT EmitEdge")])
+    r = tlc.run(ctx, "C13_CrossMC", "gen_%s_edges.cfg" % name, cfg_text=cfg, workers=1, timeout=900, name="ed" + name)
+    if not r.ok:
+        raise MachineryError("design-level failure in C13_Cross %s: %s violated\n%s" % (name, r.violated, r.out[-2500:]))
+    conf = [o for t, o in r.prints if t == "VFCONF"]
+    g = graph.Graph(r.inits, r.edges)
+    if g.n_edges() == 0 or not conf:
+        raise MachineryError("no edges printed for " + name)
+    st = collections.Counter()
+    for _sk, op, _tk in g.edges:
+        k = op["name"]
+        if op["replay"] != "no":
+            st["record_replay_%s_%s" % (op["replay"], k)] += 1
+        if op["keyreplay"] != "no":
+            st["key_replay_%s_%s" % (op["keyreplay"], k)] += 1
+        if op["aftercold"]:
+            st["own_record_after_foreign_presentation_" + k] += 1
+        if op["m"]["la"] != op["x"] and op["m"]["rec"] == "none":
+            st["foreign_listen_addr_" + k] += 1
+    walks, _parent = _covering_walks(g, ctx.seed, 60)
+    # a second, differently shuffled covering set: the same transitions after other histories
+    walks += _covering_walks(g, ctx.seed + 7919, 60)[0]
+    steps = sum(len(w["steps"]) for w in walks)
+    graph.write_behaviours(os.path.join(beh_dir, name + ".jsonl"), walks,
+                           {"name": name, "conf": conf[0], "edges": g.n_edges(), "states": g.n_states(),
+                            "state_layout": "{k: stored key per peer, w: peers whose record was accepted from themselves, t: peers whose record or key was presented by another peer}"})
+    return name, r.distinct, r.generated, g.n_edges(), len(walks), steps, dict(st), g.n_states()
+
+
+def _cross_exhaustive(args):
+    ctx, name, peers, menu = args
+    cfg = tlc.subst_cfg("C13_CrossMC.cfg", {"Peers": S(*peers), "Menu": '"%s"' % menu})
+    r = tlc.run(ctx, "C13_CrossMC", "gen_%s_mc.cfg" % name, cfg_text=cfg, workers=1, timeout=1500, name="mc" + name)
+    if not r.ok:
+        raise MachineryError("design-level failure in C13_Cross %s: %s violated\n%s" % (name, r.violated, r.out[-2500:]))
+    cfg2 = tlc.subst_cfg("C13_CrossMC.cfg", {"Peers": S(*peers), "Menu": '"%s"' % menu},
+                         replace=[(CROSS_INV, "INVARIANTS ReachWarmReplayable"), (CROSS_PROPS, "")])
+    r2 = tlc.run(ctx, "C13_CrossMC", "gen_%s_reach.cfg" % name, cfg_text=cfg2, workers=1, timeout=300, name="rc" + name)
+    if r2.ok or r2.violated != "ReachWarmReplayable":
+        raise MachineryError("vacuity guard: no warm replay reachable in " + name)
+    return name, r.distinct, r.generated, r.wall
+
+
+def _cross_replay(ctx, beh_dir):
+    return goenv.run_harness(ctx, PKG, "^TestVerifC13Cross$", inputs=beh_dir, timeout=1500)
+
+
 def _replay(ctx, beh_dir):
     return goenv.run_harness(ctx, PKG, "^TestVerifC13Replay$", inputs=beh_dir, timeout=2400)
 
@@ -245,31 +301,47 @@ def run(ctx):
         raise MachineryError("C13 artefacts hold the failing prefix and the instance; re-run `VERIF_SEED=<seed in file name> ./check C13`")
     tlc.stage(ctx)
     beh_dir = ctx.sub("beh")
+    xbeh_dir = ctx.sub("behx")
+    thorough = ctx.tier == "thorough"
+    xgraphs = [("cross3", ("V", "S", "W"), "lean")] + ([("cross3full", ("V", "S", "W"), "full")] if thorough else [])
+    xexh = [("cross3full", ("V", "S", "W"), "full")] + ([("cross4", ("V", "S", "W", "U"), "lean")] if thorough else [])
     rinsts = replay_instances(ctx)
     einsts = exhaustive_instances(ctx)
-    # <= 4 TLC workers at a time: one lane of exhaustive runs (2 workers), two printing lanes (1 worker each);
-    # the section probe needs no TLC output: it (and the build of the test binary) runs meanwhile; the replay
-    # starts as soon as the graphs are written, next to what is left of the exhaustive lane
-    with cf.ProcessPoolExecutor(max_workers=1) as pe, cf.ProcessPoolExecutor(max_workers=2) as pr, \
-            cf.ProcessPoolExecutor(max_workers=1) as ps:
+    # <= 4 TLC workers at a time: pool A = two lanes of single-worker runs (the printing runs first, then
+    # liveness, probes, the cross-peer exhaustive run), pool B = one lane of 2-worker exhaustive runs.  The Go
+    # parts need no TLC worker: section probe / real hosts / cross-peer replay run in their own lane as soon as
+    # their inputs exist; once every TLC job of this part is done the push part (checks/C13push.py, 4 TLC
+    # workers of its own) starts in a thread, next to the big replay.
+    with cf.ProcessPoolExecutor(max_workers=2) as pa, cf.ProcessPoolExecutor(max_workers=1) as pb, \
+            cf.ProcessPoolExecutor(max_workers=1) as ps, cf.ProcessPoolExecutor(max_workers=1) as pg, \
+            cf.ThreadPoolExecutor(max_workers=1) as tp:
         fs = ps.submit(_sections, ctx)
         fh = ps.submit(_hosts, ctx)
-        fr = [pr.submit(_replay_instance, (ctx, i, beh_dir)) for i in rinsts]
-        fe = [pe.submit(_exhaustive, (ctx, i, 2)) for i in einsts]
-        fl = pe.submit(_liveness, ctx)
-        fg = [pe.submit(_reach, (ctx, rinsts[0], probe)) for probe in ("ReachSome", "ReachRecentBig", "ReachDoneAfterDisc")]
+        fx = [pa.submit(_cross_graph, (ctx, n, pp, mn, xbeh_dir)) for n, pp, mn in xgraphs]
+        fr = [pa.submit(_replay_instance, (ctx, i, beh_dir)) for i in rinsts]
+        fe = [pb.submit(_exhaustive, (ctx, i, 2)) for i in einsts]
+        fl = pa.submit(_liveness, ctx)
+        fg = [pa.submit(_reach, (ctx, rinsts[0], probe)) for probe in ("ReachSome", "ReachRecentBig", "ReachDoneAfterDisc")]
+        fxe = [pa.submit(_cross_exhaustive, (ctx, n, pp, mn)) for n, pp, mn in xexh]
+        xres = [f.result() for f in fx]
+        fxr = ps.submit(_cross_replay, ctx, xbeh_dir)
         rres = [f.result() for f in fr]
         log("C13: graphs and walks done at %.1fs" % ctx.wall())
-        sections = fs.result()
-        hosts = fh.result()
-        log("C13: section probe and real-host rounds done at %.1fs" % ctx.wall())
-        fp = ps.submit(_replay, ctx, beh_dir)
-        eres = [f.result() for f in fe]
+        fp = pg.submit(_replay, ctx, beh_dir)
         live = fl.result()
         guards = [f.result() for f in fg]
+        xeres = [f.result() for f in fxe]
+        eres = [f.result() for f in fe]
         log("C13: exhaustive + liveness done at %.1fs" % ctx.wall())
+        fpush = tp.submit(push_part, ctx, thorough)
+        sections = fs.result()
+        hosts = fh.result()
+        cross = fxr.result()
+        log("C13: section probe, real-host rounds, cross-peer replay done at %.1fs" % ctx.wall())
         res = fp.result()
         log("C13: replay done at %.1fs" % ctx.wall())
+        push = fpush.result()
+        log("C13: push part done at %.1fs" % ctx.wall())
 
     states = sum(r[1] for r in eres) + sum(r[1] for r in rres) + live[0]
     trans = sum(r[2] for r in eres) + sum(r[2] for r in rres) + live[1]
@@ -290,6 +362,24 @@ def run(ctx):
             raise MachineryError("vacuity guard: no replayed transition of kind %s" % k)
 
     div = classify_mismatches(ctx, sections, "sections")
+    # cross-peer, history-aware part
+    div += classify_mismatches(ctx, cross, "cross")
+    xtot = collections.Counter()
+    for r in xres:
+        xtot.update(r[6])
+    for k in ("record_replay_warm_push", "record_replay_warm_done", "record_replay_cold_push", "record_replay_cold_done",
+              "key_replay_warm_push", "key_replay_warm_done", "key_replay_cold_push", "key_replay_cold_done",
+              "own_record_after_foreign_presentation_push", "own_record_after_foreign_presentation_done",
+              "foreign_listen_addr_push", "foreign_listen_addr_done"):
+        if not xtot.get(k):
+            raise MachineryError("vacuity guard: no cross-peer transition of kind %s" % k)
+    xedges = sum(r[3] for r in xres)
+    if not cross["mismatches"] and cross["distinct"] < xedges:
+        raise MachineryError("cross-peer replay executed %d distinct transitions of %d" % (cross["distinct"], xedges))
+    states += sum(r[1] for r in xres) + sum(r[1] for r in xeres)
+    trans += sum(r[2] for r in xres) + sum(r[2] for r in xeres)
+    log("C13: cross-peer part: exhaustive %s; replayed %s; %d steps" % (
+        [(r[0], r[1], r[2]) for r in xeres], [(r[0], r[7], r[3], r[4]) for r in xres], cross["steps"]))
     div += classify_mismatches(ctx, hosts, "hosts")
     hx = hosts.get("extra") or {}
     if not hosts["mismatches"]:
@@ -308,10 +398,9 @@ def run(ctx):
     log("C13: exhaustive %s; liveness %s; replay %s; %d replay transitions, %d walks, %d steps; sections %d scenarios; real-host rounds %d; L2 divergences %d; guards %s"
         % ([(r[0], r[1], r[2], r[3]) for r in eres], live, [(r[0], r[8], r[3], r[4], r[7]) for r in rres],
            edges_total, n_walks, res["steps"], sections["replayed"], hosts["replayed"], div, guards))
-    push = push_part(ctx, ctx.tier == "thorough")
     cov = evidence.mc_coverage(
         states + push.get("states", 0), trans + push.get("transitions", 0),
-        res["replayed"] + sections["replayed"] + hosts["replayed"] + push.get("replayed", 0), res.get("samples") or [], exhaustive=True,
+        res["replayed"] + sections["replayed"] + hosts["replayed"] + cross["replayed"] + push.get("replayed", 0), res.get("samples") or [], exhaustive=True,
         checker_cmd="tlc C13_MC.tla (template C13_MC.cfg instantiated: exhaustive %s + liveness live2; printed+replayed %s)" % (
             ",".join(r[0] for r in eres), ",".join(r[0] for r in rres)),
         instances=len(eres) + len(rres) + 1,
@@ -323,9 +412,15 @@ def run(ctx):
         harness_variants=modes, section_scenarios=sections["replayed"], section_extra=sections.get("extra"),
         real_host_rounds=hosts["replayed"], real_host_extra=hx, real_host_rule=hosts.get("rule"),
         divergences_L2=div, notes=ctx.notes[:10], rule=res.get("rule"), sections_rule=sections.get("rule"),
+        cross_peer={"spec": "spec/C13_Cross.tla", "exhaustive": {r[0]: {"states": r[1], "transitions": r[2]} for r in xeres},
+                    "replayed": {r[0]: {"states": r[7], "transitions": r[3], "walks": r[4], "steps": r[5]} for r in xres},
+                    "transition_kinds": dict(xtot), "steps_executed": cross["steps"],
+                    "distinct_transitions_executed": cross["distinct"], "rule": cross.get("rule"),
+                    "harness_variants": (cross.get("extra") or {}).get("chunk_modes")},
         push={k: v for k, v in push.items() if k != "samples"})
     return {"level": "model_checking", "coverage": cov, "assumptions": [
         "two peers (the remote R of every connection, a foreign F that is never connected), <=2 connections replayed (3 exhaustively), each opened and closed once",
+        "cross-peer part (C13_Cross): 3 authenticated peers (4 exhaustively in the thorough tier), one connection each at a time; a peer's message is made of its own blobs or byte-for-byte copies of another peer's signed record / public key / listen address, before and after the owner had them accepted (history in the model state), as response and as push; effects are those of a peer with an open connection (lifetimes are the business of C13_Identify)",
         "message space = field classes (protocols none/few/with push/>cap; listen addrs none/own/with /p2p/F and /p2p/R suffix/>cap; key absent/R/F/garbage; signed record absent/valid/F's own/forged for R by F/PeerID F by R/other registered type/wrong domain/unregistered type/garbage/bad signature; agent+protocol version absent/two values), one field at a time around a benign base plus four fully hostile combinations; the chunking (1 frame, split, duplicated, 9 frames) is drawn per step from the seed",
         "the swarm is a stub: Connectedness is computed from the harness's connection set, the Connected notification precedes Disconnected for a connection, Disconnected only after the connection left the set",
         "consumeMessage is one atomic step (its address section under addrMu; protocols/metadata/key writes commute with Disconnected); the harness checks at every Connectedness read and address write that addrMu is held and a separate probe runs the racing section inside whenever it is not",
@@ -350,6 +445,8 @@ MANIFEST = {
     "text": "The spec has one action per critical section or public call (swarm open/close, Connected, Disconnected with its address section under addrMu, IdentifyWait, identify response consumed / failed / timed out, push consumed / failed); messages are records of field classes; lists are token sequences with weights so the real caps (500, 20, 1024; pstoremem 64, 128) are used unscaled. TLC checks on every reachable state that F's entry never changes, a stored key is the peer's, retained numbers are capped, the connected lifetime exists only while a connection (or its pending Disconnected) does, a record contributes only if valid for and signed by R, failures change nothing, and that every wait is released. The replay drives every (state, action, argument) of the printed graphs through the real code; L1 monitors are computed from observables only (peerstore contents of every peer, events, wait channels, expiry in virtual time).",
     "note": "Trusted: TLC, the stub swarm (ordering of notifications as the real swarm guarantees), the recording decorator, testing/synctest. The exact retained sets where the peerstore evicts by its own choice are compared by count and universe only. Concurrency inside consumeMessage beyond the addrMu section is not interleaved (the writes commute with Disconnected); the lock discipline is checked at every Connectedness read / address write and a gate probe exercises the interleaving whenever the lock is not held. Lifetime classes between steps are L2 (recorded TTL arguments); PushSupport bookkeeping and the observed address are not modelled.",
     "engines": [{"name": "C13_Identify", "path": "spec/C13_Identify.tla", "serves_properties": ["C13"], "kind_free_text": "TLA+ spec + TLC exhaustive (safety + liveness) + full-transition replay + lifetime probing in virtual time + section gate probe"},
+                {"name": "C13_Cross", "path": "spec/C13_Cross.tla", "serves_properties": ["C13"],
+                 "kind_free_text": "TLA+ spec of several authenticated peers whose messages are made of own blobs or byte-for-byte copies of other peers' signed records / keys / listen addresses, with the acceptance history (warm / presented by a non-owner) in the state + TLC exhaustive + full-transition replay on the real idService with one stub connection per peer, all peers' peerstore entries read before and after every step"},
                 {"name": "C13_Push", "path": "spec/C13_Push.tla", "serves_properties": ["C13"],
                  "kind_free_text": "extension engine: TLA+ spec of the identify push / snapshot side + TLC exhaustive (safety, convergence as liveness) + full-transition replay through gates on the real idService + TLC validation of gate-free concurrent runs against the observable-level spec C13_PushObs.tla"}],
 }
